@@ -10,6 +10,7 @@
 
 RunOut *g_out = nullptr;
 bool g_thorough = false;
+bool g_light = false;
 std::vector<std::pair<string, string>> g_known;
 
 const char *opkind_name[] = {"put", "del", "write", "get", "has", "snap", "release", "iter_new", "iter_op", "iter_free", "flush",
